@@ -222,6 +222,8 @@ func init() {
 		"xsetid":   cmdXsetid,
 		"xgroup":   cmdXgroup,
 		"xclaim":   cmdXclaim,
+		"xdel":     cmdXdel,
+		"xrange":   cmdXrange,
 		"xlen": func(s *Server, ss *Session, a [][]byte) resp.Value {
 			o := s.lookup(ss.DB, a[0])
 			if o == nil {
@@ -1041,4 +1043,4 @@ func fnv64(b []byte) uint64 {
 	return h
 }
 
-func cmdFunction(s *Server, ss *Session, a [][]byte) resp.Value { return resp.OK() }
+func cmdFunction(s *Server, ss *Session, a [][]byte) resp.Value { return cmdFunctionImpl(s, ss, a) }
